@@ -332,5 +332,8 @@ def check(ctx):
             if f"({bvar} is None)" in ds and ds <= allowed:
                 okb = True
     ctx.check(okb, poll, gcall, f"basis generated only while {bvar} is None or empty, then kept", "the direction basis can be regenerated in the middle of a poll: directions need not form one positive spanning set", construct=f"basis generation guard {g[-1:] }")
+    from . import meshflow
+
+    meshflow.report(ctx, "R6", lambda fn, slot, R: fn is R.poll_step)
     ctx.assume("numpy.random.randint(lo, hi) draws integers in [lo, hi-1]; permutation/transposition/row scaling preserve rank")
     ctx.assume("a strictly triangular matrix plus a diagonal with non-zero entries is non-singular (determinant = product of the diagonal)")
